@@ -122,12 +122,6 @@ theorem metadata_roundtrip (F : Flags) : Flags.ofNat F.toNat = F ∧ F.toNat < 8
   rcases F with ⟨a, b, c⟩
   cases a <;> cases b <;> cases c <;> decide
 
-/-- **C24 (reported flags)**: the flags named in a `UnitaryCallError` are exactly the
-    required flags the callee lacks. -/
-theorem missing_has (F g : Flags) (k : FlagKind) :
-    (F.and g.compl).has k = (F.has k && !g.has k) := by
-  cases k <;> rfl
-
 /-! ### Non-vacuity: concrete instances, including the two D7 witnesses -/
 
 /-- D7a: a call in an `if` condition, dagger context, callee without flags: rejected. -/
